@@ -341,6 +341,79 @@ fn run_sequence_inner(steps: &[Step]) -> Result<String, String> {
     Ok(summary)
 }
 
+
+thread_local! {
+    static Z_DROPS: std::cell::Cell<u32> = const { std::cell::Cell::new(0) };
+}
+
+/// A zero-sized lent value whose only observable is its `Drop`.
+struct Z;
+
+impl Drop for Z {
+    fn drop(&mut self) {
+        Z_DROPS.with(|c| c.set(c.get() + 1));
+    }
+}
+
+/// Zero-sized values with drop glue: n0 lent by the original, n1 by a clone, optionally followed by
+/// a `make_mut` on the original; dropped exactly once each, never before teardown (except what the
+/// exclusive operation may release).
+fn zst_cells(ctx: &vh::explore::Ctx, stats: &mut Stats) {
+    for n0 in 0..4u32 {
+        for n1 in 0..4u32 {
+            for with_mut in [false, true] {
+                let cell = format!("zst/{n0}-on-original/{n1}-on-clone/{}", if with_mut { "then-make_mut" } else { "refs-only" });
+                stats.add("traces_validated_against_impl", 1);
+                stats.add("transitions", (n0 + n1 + 3) as u64);
+                stats.add("zst_cells", 1);
+                let r = catch(|| -> Result<(), String> {
+                    Z_DROPS.with(|c| c.set(0));
+                    let mut original = Quiet::new(Unimock::new(()));
+                    let clone = Quiet::new(original.clone());
+                    for _ in 0..n0 {
+                        let _: &Z = original.make_ref(Z);
+                    }
+                    for _ in 0..n1 {
+                        let _: &Z = clone.make_ref(Z);
+                    }
+                    let drops = Z_DROPS.with(|c| c.get());
+                    if drops != 0 {
+                        return Err(format!("{drops} zero-sized values were dropped while still lent"));
+                    }
+                    let mut made0 = n0;
+                    if with_mut {
+                        let _: &mut Z = original.make_mut(Z);
+                        made0 += 1;
+                        let drops = Z_DROPS.with(|c| c.get());
+                        if drops > n0 {
+                            return Err(format!("make_mut on the original released {drops} values, it lent {n0} before"));
+                        }
+                    }
+                    let before = Z_DROPS.with(|c| c.get());
+                    drop(clone);
+                    let after_clone = Z_DROPS.with(|c| c.get());
+                    if after_clone - before != n1 {
+                        return Err(format!("dropping the clone dropped {} of the {n1} zero-sized values it lent", after_clone - before));
+                    }
+                    drop(original);
+                    let total = Z_DROPS.with(|c| c.get());
+                    if total != made0 + n1 {
+                        return Err(format!("after teardown {total} of {} zero-sized values were dropped (each exactly once expected)", made0 + n1));
+                    }
+                    Ok(())
+                });
+                let r = match r {
+                    Ok(r) => r,
+                    Err(msg) => Err(format!("a lending operation panicked: {msg}")),
+                };
+                if let Err(what) = r {
+                    ctx.violation("zst", &format!("{cell}: {what}"), J::obj().set("zst_cell", cell.as_str()));
+                }
+            }
+        }
+    }
+}
+
 fn long_chain(n: usize, stack: usize) -> Result<(), String> {
     let r = std::thread::Builder::new()
         .stack_size(stack)
@@ -581,6 +654,7 @@ fn main() {
         stats.merge(p);
     }
     stats.add("sequential_sequences", stats.get("traces_validated_against_impl"));
+    zst_cells(ctx, &mut stats);
     // long chains at the stated bound
     // (thousands of values; small stacks make recursion in lending or releasing visible)
     for (n, stack) in [(1024usize, 64 * 1024usize), (4096, 64 * 1024), (4096, 2 * 1024 * 1024), (9000, 128 * 1024), (20000, 64 * 1024)] {
